@@ -104,20 +104,31 @@ def nested(rng, depth, parent=None, budget=None):
 
 
 def tree_rlit(t):
+  import C12
+  t = C12.tree_norm(t, 1.0)
   if t[0] == "lin":
     return "(RLin %s %s)" % (rlist(t[1]), rlist(t[2]))
   return "(%s [%s])" % ("RCas" if t[0] == "cas" else "RPar", "; ".join(tree_rlit(c) for c in t[1]))
 
 
+def kind_of(x, rng_bits):
+  """the same number as another Python kind: int / bool for integral values, real-valued complex"""
+  if rng_bits % 7 == 0 and x == int(x):
+    return bool(x) if x in (0.0, 1.0) and rng_bits % 2 else int(x)
+  if rng_bits % 11 == 0:
+    return complex(x, 0.0)
+  return x
+
+
 def tree_build(t):
-  from audiolazy import ZFilter, CascadeFilter, ParallelFilter
-  if t[0] == "lin":
-    return ZFilter(list(t[1]), list(t[2]))
-  return (CascadeFilter if t[0] == "cas" else ParallelFilter)(*[tree_build(c) for c in t[1]])
+  import C12
+  return C12.build_tree(t, float)
 
 
 def tree_tol(t, w):
   """(|H|, tolerance) of a nested filter, None if a denominator or a factor is too small"""
+  import C12
+  t = C12.tree_norm(t, 1.0)
   if t[0] == "lin":
     r = fr_tol(t[1], t[2], w)
     return None if r is None else (abs(r[1]), TOL * r[0], r[1])
@@ -152,19 +163,25 @@ def fr_tol(b, a, w):
 def gen(tier, rng):
   quick = tier == "quick"
   # samples per family: (single, cascade, parallel, impulse-dft, dft-normalised, steady)
-  n1, n2, n3, n4, n5, n6 = (46, 8, 8, 4, 10, 10) if quick else (600, 120, 200, 100, 200, 150)
+  n1, n2, n3, n4, n5, n6, n7 = (44, 7, 8, 4, 10, 8, 10) if quick else (600, 120, 200, 100, 200, 150, 150)
   cases = []
   for _ in range(n1):
-    b, a = section(rng, 6)
+    b, a = section(rng, 8 if rng.random() < 0.1 else 6)
     if rng.random() < 0.12:           # leading zeros: the constructor shifts both polynomials (Laurent numerator)
       a = [0.0] * rng.randrange(1, 3) + a[:5]
     cases.append({"fam": "single", "secs": [[b, a]], "w": freq(rng)})
+    if rng.random() < 0.3:            # the same numbers as int / bool / real-valued complex coefficients
+      cases[-1]["kb"] = [rng.randrange(0, 1000) for _ in range(len(b) + len(a))]
   for fam in ("cascade", "parallel"):
     for _ in range(n2):
       secs = [list(section(rng, 2)) for _ in range(rng.choice([1, 2, 2] if quick else [1, 2, 2, 2, 3]))]
       cases.append({"fam": fam, "secs": secs, "w": freq(rng)})
   for _ in range(n6):
     cases.append({"fam": "nested", "tree": nested(rng, 3), "w": freq(rng)})
+  import C12
+  for _ in range(n7):
+    t, mode = C12.coincide_tree(rng, lambda: list(section(rng, 2)), lambda: rng.choice([2.0, -1.0, 0.5, 1.0, 3.0]))
+    cases.append({"fam": "nested", "tree": t, "w": freq(rng), "mode": mode})
   for _ in range(n3):
     b = coeffs(rng, rng.randrange(1, 8))
     a0 = rng.choice([1.0, 1.0, -1.0, 2.0, 0.5, -4.0])
@@ -198,7 +215,7 @@ def secs_lit(secs):
 
 def observe(c):
   """runs the library; returns (value, spec expression of type C, tolerance) or a skip / exact verdict"""
-  from audiolazy import ZFilter, CascadeFilter, ParallelFilter, dft
+  from audiolazy import ZFilter, CascadeFilter, ParallelFilter, LinearFilter, dft
   w = c["w"]
   fam = c["fam"]
   if fam in ("single", "cascade", "parallel"):
@@ -206,6 +223,10 @@ def observe(c):
     if any(t is None for t in tols):
       return {"skip": "denominator too close to zero"}
     fs = [ZFilter(list(b), list(a)) for b, a in c["secs"]]
+    if c.get("kb"):
+      b, a = c["secs"][0]
+      kb = c["kb"]
+      fs = [ZFilter([kind_of(x, k) for x, k in zip(b, kb)], [kind_of(x, k) for x, k in zip(a, kb[len(b):])])]
     if fam == "single":
       v = fs[0].freq_response(w)
       b, a = c["secs"][0]
@@ -233,7 +254,7 @@ def observe(c):
       return {"skip": "denominator or factor too close to zero"}
     filt = tree_build(t)
     v = filt.freq_response(w)
-    own = [x.freq_response(w) for x in filt] if t[0] != "lin" else [v]
+    own = [(x if callable(x) else LinearFilter(x)).freq_response(w) for x in filt] if t[0] != "lin" else [v]
     same = reduce(operator.mul if t[0] == "cas" else operator.add, own) if t[0] != "lin" else v
     return {"v": v, "spec": "(spec_tree %s %s)" % (tree_rlit(t), rlit(w)), "tol": tt[1],
             "exact_ok": (v == same) or (v != v and same != same), "own": [repr(x) for x in own]}
